@@ -957,3 +957,28 @@ def d10(cx: Cx, ob: Ob) -> None:
             ob.violate(f"{U}.CONTENT_TYPE_TO_RDFLIB_FORMAT", "src/curies/mapping_service/utils.py", f"{k!r} is a media range, not a result type", detail=f"wildcard-type:{k}")
     if dflt not in fmt:
         ob.violate(f"{U}.DEFAULT_CONTENT_TYPE", "src/curies/mapping_service/utils.py", f"the default {dflt!r} is not a supported result type", detail="default-unsupported")
+
+
+@obligation("C18-D11", "the namespace bindings rdflib gives every graph (owl, rdf, rdfs, xsd, xml - the documented queries use owl:sameAs without declaring it) survive construction: MappingServiceGraph binds nothing with rdflib's default override=True, which re-points a namespace that already has a prefix and DROPS the old prefix (rdflib's NamespaceManager.bind: `override` - 'rebind, even if the given namespace is already bound to another prefix')", floor=1)
+def d11(cx: Cx, ob: Ob) -> None:
+    ci = cx.model.cls(f"{A}.MappingServiceGraph", ob.id)
+    n = 0
+    for m in ci.methods.values():
+        s = cx.summary(m, ob.id)
+        n += 1
+        for c, ev, ctx in s.calls("bind"):
+            if op(c[1]) != "attr":
+                continue
+            kw = dict(c[3])
+            override = kw.get("override", c[2][2] if len(c[2]) > 2 else None)
+            if is_const(override, False):
+                ob.site(f"{where(m, ev.line)} {m.qualname}", "bind(..., override=False)")
+                continue
+            ob.violate(
+                m.qualname,
+                where(m, ev.line),
+                f"`{show(c)[:60]}` binds with rdflib's default override=True: if the URI prefix is a namespace the graph already knows under another prefix (the converter holds the OWL namespace as 'OWL', SKOS as 'SKOS' ...), the built-in prefix is dropped, and the documented queries that use owl:sameAs / skos:exactMatch without a PREFIX declaration fail with 'Unknown namespace prefix' for every URI",
+                witness="Converter with Record(prefix='OWL', uri_prefix='http://www.w3.org/2002/07/owl#'): SELECT ?o WHERE { <u> owl:sameAs ?o } raises",
+                detail="bind-override",
+            )
+    ob.site(f"src/curies/mapping_service/api.py MappingServiceGraph", f"{n} methods scanned for namespace bindings")
